@@ -23,6 +23,12 @@ var ErrNgVersionMismatch = errors.New("Unknown pcapng Version in Section Header"
 // ErrNgLinkTypeMismatch gets returned if the link type of an interface is not the same as the link type from the first interface. This can only happen if ReaderOptions.ErrorOnMismatchingLinkType == true && ReaderOptions.WantMixedLinkType == false
 var ErrNgLinkTypeMismatch = errors.New("Link type of current interface is different from first one")
 
+// errNgInvalidBlockLength gets returned if the length of a block is smaller than the minimum block length or not a multiple of 4.
+var errNgInvalidBlockLength = errors.New("Invalid block length")
+
+// errNgBlockTooShort gets returned if the length of a block is smaller than the length of its content.
+var errNgBlockTooShort = errors.New("Block length is too short for its content")
+
 const (
 	ngByteOrderMagic = 0x1A2B3C4D
 
